@@ -170,7 +170,7 @@ Proof.
   - ss. destruct (ph s); try exact H1.
     + apply rounds_ok; [intros; now apply attempt_loop_ok|exact H1].
     + apply verify_done_ok; [intros; now apply attempt_loop_ok|exact H1].
-    + now apply finish_ok.
+    + destruct (ploss s); [now apply lose_current_ok|now apply finish_ok].
     + now apply attempt_ok.
 Qed.
 
